@@ -570,7 +570,7 @@ Proof.
     - destruct (parse_simple ph (OAgg t) (ONum k)); [|discriminate]. now apply convert_cmp_ocmp in Ec.
     - destruct (parse_between (OAgg t) (ONum lo) (ONum hi)); [|discriminate]. now apply convert_cmp_ocmp in Ec. }
   assert (Hpl : passive_labels sp = if passive (g_form g) && negb (has_label l (a_whenever sp)) then [(l, KRoom)] else []).
-  { unfold passive_labels, aggs. rewrite Ha. destruct (a_cmp sp); try contradiction; cbn [aggs_of_cmp fold_left]; rewrite Hlab; cbn [has_label existsb]; rewrite andb_true_r; reflexivity. }
+  { unfold passive_labels, aggs. rewrite Ha. destruct (a_cmp sp); try contradiction; cbn [aggs_of_cmp flat_map]; rewrite Hlab, app_nil_r; destruct (passive (g_form g) && negb (has_label l (a_whenever sp))); reflexivity. }
   assert (Hread : negb (reading sp I) = existsb (fun v => negb (Bool.eqb (cmp_holds sp I [(l, v)]) (a_required sp))) (dom_of sp side)).
   { unfold reading, outer_labels. rewrite Hpl.
     assert (E : ((if passive (g_form g) && negb (has_label l (a_whenever sp)) then [(l, KRoom)] else []) ++ a_whenever sp)%list = [(l, side)]).
